@@ -261,16 +261,21 @@ func randomScript(rng *rand.Rand, seed int64, withSim, withAbciOld bool) (Script
 // it); then a2's record changes inside the session (edit-stake that drops / keeps the
 // chain, stake bump, jail by absence); after the session has ended a2 claims it.  The
 // claim needs no valid Merkle root to reach the session-membership check.
-func sessionScript(rng *rand.Rand, seed int64) (Script, []string) {
+func sessionScript(rng *rand.Rand, seed int64, variant int) (Script, []string) {
 	sc := Script{Seed: seed, Actions: warmActions()}
 	kinds := []string{"dispatch"}
 	// session 2 = heights 5..8 (blocks per session 4); we are at height 2
 	for h := 3; h <= 4; h++ {
 		sc.Actions = append(sc.Actions, Action{A: "block"})
 	}
+	// variant 0..7 enumerates (change kind x dispatch timing); larger values are random
 	dispatchAt := 5 + rng.Intn(2) // before or after the first block of the session
 	changeAt := 6 + rng.Intn(2)
 	change := rng.Intn(4)
+	if variant >= 0 && variant < 8 {
+		change = variant % 4
+		dispatchAt = 5 + variant/4
+	}
 	for h := 5; h <= 8; h++ {
 		if h == dispatchAt {
 			sc.Actions = append(sc.Actions, Action{A: "dispatch", OnlyA: true, Who: "a4", Chain: "0002"})
@@ -321,9 +326,14 @@ func randomRel(out string, n int) {
 		rng := hx.Rng(int64(t) + 99)
 		// a third of the scenarios avoid the request kinds with known findings, so that
 		// everything else is judged on its own
-		sc, kinds := randomScript(rng, hx.Seed()*100+int64(t), t%3 == 0, t%3 == 1)
-		if t%2 == 1 {
-			sc, kinds = sessionScript(rng, hx.Seed()*100+int64(t))
+		// the first eight scenarios are the session-cache family (every change kind x dispatch
+		// timing), then random ones
+		var sc Script
+		var kinds []string
+		if t < 8 {
+			sc, kinds = sessionScript(rng, hx.Seed()*100+int64(t), t)
+		} else {
+			sc, kinds = randomScript(rng, hx.Seed()*100+int64(t), t%3 == 0, t%3 == 1)
 		}
 		sc.Role = "A"
 		a := child(sc)
